@@ -20,6 +20,8 @@ use std::fmt::Debug;
 // we break our frames up into frame_max pieces, we need to account for this many
 // bytes.
 const FRAME_OVERHEAD: usize = 8;
+#[cfg(amiquip_verif)]
+pub(super) const VERIF_FRAME_OVERHEAD: usize = FRAME_OVERHEAD;
 
 #[derive(Debug)]
 pub(crate) struct Channel0Handle {
